@@ -64,3 +64,320 @@ pub(crate) fn c18_k2_atomic_primitives() {
     cover!(a > b);
     cover!(a < b);
 }
+
+// ================================================================================================
+// entry-level contracts (feature hot-reloading for the dynamic arm)
+// ================================================================================================
+use crate::amv::common::*;
+
+macro_rules! instances {
+    ($( $name:ident => $body:expr; )*) => { $(
+        #[cfg_attr(kani, kani::proof)]
+        #[cfg_attr(amv_replay, test)]
+        #[cfg_attr(kani, kani::unwind(6))]
+        pub(crate) fn $name() { $body }
+    )* };
+}
+macro_rules! panicking_instances {
+    ($( $name:ident => $body:expr; )*) => { $(
+        #[cfg(kani)]
+        #[kani::proof]
+        #[kani::should_panic]
+        #[kani::unwind(6)]
+        pub(crate) fn $name() { $body }
+    )* };
+}
+
+fn is_dynamic(e: &CacheEntry) -> bool {
+    #[cfg(feature = "hot-reloading")]
+    {
+        e.0.dynamic.is_some()
+    }
+    #[cfg(not(feature = "hot-reloading"))]
+    {
+        false
+    }
+}
+
+// ---- C10.K1: CacheEntry::new is dynamic <=> T::HOT_RELOADED && mutable(); mutable() is consulted only for hot-reloaded types
+fn c10_new<T: Storable + Mk>(hot: bool) {
+    let m: bool = nd();
+    let mut calls = 0u8;
+    let e = CacheEntry::new(T::mk(nd()), "a".into(), || {
+        calls += 1;
+        m
+    });
+    assert!(T::HOT_RELOADED == hot);
+    let expect = cfg!(feature = "hot-reloading") && hot && m;
+    assert!(is_dynamic(&e) == expect, "C10 an entry is reloadable (dynamic) iff its type is hot-reloaded and the cache has a reloader");
+    assert!(hot || calls == 0, "C10 `mutable` is not consulted for a type that opted out");
+    assert!(e.inner().last_reload_id() == ReloadId::NEVER, "C06 the reload id of a fresh entry is NEVER");
+    assert!(!e.inner().reloaded_global(), "C06 a fresh entry was not reloaded");
+    let mut w = e.inner().reload_watcher();
+    assert!(!w.reloaded(), "C06 a fresh watcher reports false");
+    assert!(&**e.id() == "a" && e.type_id() == TypeId::of::<T>(), "entry carries its key");
+    std::mem::forget(e);
+}
+instances! {
+    c10_k1_new_a => c10_new::<A>(true);
+    c10_k1_new_s => c10_new::<S>(false);
+    c10_k1_new_p => c10_new::<P>(false);
+}
+
+// ---- C10.K4: Handle::get returns the stored reference for static entries; panics on a dynamic one
+fn c10_get_static() {
+    let v: u8 = nd();
+    let e = CacheEntry::new(S(v), "a".into(), || true);
+    let h = e.inner().downcast_ref_ok::<S>();
+    assert!(h.get().0 == v, "C10 Handle::get returns the stored value");
+    assert!(h.get() as *const S == &*h.read() as *const S, "C10 Handle::get and read() see the same object");
+    assert!(h.last_reload_id() == ReloadId::NEVER && !h.reloaded_global(), "C10 static entries are never marked reloaded");
+    std::mem::forget(e);
+}
+instances! {
+    c10_k4_get_static => c10_get_static();
+}
+#[cfg(feature = "hot-reloading")]
+panicking_instances! {
+    c10_k4_get_dynamic_panics => {
+        // a dynamic entry viewed as a NotHotReloaded type cannot be built through the API; forge one
+        let e = CacheEntry(Box::new(EntryStorage::new_dynamic("a".into(), S(1))));
+        let h = e.inner().downcast_ref_ok::<S>();
+        let _ = h.get();
+        std::mem::forget(e);
+    };
+}
+
+// ---- C06.K1 / C13.K2: UntypedEntry::write ------------------------------------------------------------------
+#[cfg(feature = "hot-reloading")]
+fn write_step<T: Tracked>() {
+    let (v0, v1): (u8, u8) = (nd(), nd());
+    let e = CacheEntry::new(T::mk(v0), "a".into(), || true);
+    assert!(is_dynamic(&e));
+    let h = e.inner();
+    let typed = h.downcast_ref_ok::<T>();
+    let mut w = h.reload_watcher();
+    let mut w2 = typed.reload_watcher();
+    let id0 = h.last_reload_id();
+    let d0 = drops(T::IX);
+    let new = CacheEntry::new(T::mk(v1), "a".into(), || true);
+    h.write(new);
+    assert!(typed.read().val() == T::mk(v1).val(), "C06/C13 after a reload the handle reads the new value");
+    assert!(h.last_reload_id().0 == id0.0 + 1, "C06 reload id grows by exactly one per successful rewrite");
+    assert!(drops(T::IX) == d0 + 1 + 1, "C13 the replaced value is dropped exactly once (plus the probe temporary)");
+    assert!(typed.last_reload_id() == h.last_reload_id(), "typed and untyped handle agree");
+    assert!(w.reloaded(), "C06 a watcher reports the reload");
+    assert!(!w.reloaded(), "C06 a watcher reports each reload once");
+    assert!(w2.reloaded() && !w2.reloaded(), "C06 every watcher reports the reload once");
+    assert!(h.reloaded_global(), "C06 reloaded_global reports the reload");
+    assert!(!h.reloaded_global() && !typed.reloaded_global(), "C06 reloaded_global reports it once for all handles");
+    assert!(crate::amv::lock_counts() == (0, 0), "C07 the entry lock is free after write");
+    let dn = drops(T::IX);
+    drop(e);
+    assert!(drops(T::IX) == dn + 1, "C13 dropping the entry drops the current value exactly once");
+}
+#[cfg(feature = "hot-reloading")]
+instances! {
+    c06_k1_write_d0 => write_step::<D0>();
+    c06_k1_write_d1 => write_step::<D1>();
+    c06_k1_write_dh => write_step::<DH>();
+    c06_k1_write_dw => write_step::<DW>();
+}
+#[cfg(feature = "hot-reloading")]
+panicking_instances! {
+    c06_k1_write_static_panics => {
+        let e = CacheEntry::new(A(1), "a".into(), || false);
+        let new = CacheEntry::new(A(2), "a".into(), || false);
+        e.inner().write(new);
+    };
+    c13_k3_write_wrong_type_panics => {
+        let e = CacheEntry::new(A(1), "a".into(), || true);
+        let new = CacheEntry::new(B(2), "a".into(), || true);
+        e.inner().write(new);
+    };
+}
+
+// ---- C06.K3: ReloadWatcher compare-and-advance over all counter values --------------------------------------------
+#[cfg(feature = "hot-reloading")]
+fn c06_watcher() {
+    let (c0, c1): (usize, usize) = (nd(), nd());
+    let e = CacheEntry::new(A(0), "a".into(), || true);
+    let d = match &e.0.dynamic { Some(d) => d, None => unreachable!() };
+    d.reload.store(ReloadId(c0));
+    let mut w = e.inner().reload_watcher();
+    assert!(w.last_reload_id().0 == c0);
+    assert!(!w.reloaded(), "C06 a watcher created after a reload does not report it");
+    d.reload.store(ReloadId(c1));
+    let r = w.reloaded();
+    assert!(r == (c1 > c0), "C06 reloaded() is true iff the counter advanced since the last poll");
+    assert!(!w.reloaded(), "C06 and then false until the next reload");
+    let g: bool = nd();
+    d.reload_global.store(g, Ordering::Release);
+    assert!(e.inner().reloaded_global() == g && !e.inner().reloaded_global(), "C06 reloaded_global = swap(false)");
+    let mut dflt = ReloadWatcher::default();
+    assert!(!dflt.reloaded() && dflt.last_reload_id() == ReloadId::NEVER, "C06 the default watcher never reports");
+    std::mem::forget(e);
+}
+#[cfg(feature = "hot-reloading")]
+instances! {
+    c06_k3_watcher => c06_watcher();
+}
+
+// ---- C07.K1: a read guard holds the read lock for its whole life (also across map / try_map / downcast) ---------------------
+#[cfg(all(kani, feature = "hot-reloading"))]
+fn readers() -> isize {
+    unsafe { crate::amv::vsync::G_READERS }
+}
+#[cfg(all(kani, feature = "hot-reloading"))]
+fn c07_guard(dynamic: bool) {
+    let v: u8 = nd();
+    let e = CacheEntry::new(A(v), "a".into(), || dynamic);
+    let h = e.inner().downcast_ref_ok::<A>();
+    let held: isize = if dynamic { 1 } else { 0 };
+    assert!(readers() == 0);
+    {
+        let g = h.read();
+        assert!(readers() == held, "C07 read() holds the entry's read lock while the guard lives");
+        assert!(g.0 == v);
+        let g2 = AssetReadGuard::map(g, |a| &a.0);
+        assert!(readers() == held, "C07 map keeps the read lock");
+        assert!(*g2 == v);
+        let g3 = match AssetReadGuard::try_map(g2, |b| Some(b)) { Ok(g) => g, Err(_) => unreachable!() };
+        assert!(readers() == held, "C07 try_map (Some) keeps the read lock");
+        let g4 = match AssetReadGuard::try_map(g3, |_b| None::<&u8>) { Ok(_) => unreachable!(), Err(g) => g };
+        assert!(readers() == held, "C07 try_map (None) hands the locked guard back");
+        assert!(*g4 == v);
+    }
+    assert!(readers() == 0, "C07 dropping the guard releases the read lock");
+    {
+        let u = e.inner().read();
+        assert!(readers() == held, "C07 untyped read() holds the read lock");
+        let t = match u.downcast::<A>() { Ok(t) => t, Err(_) => unreachable!() };
+        assert!(readers() == held && t.0 == v, "C07 downcast keeps the read lock");
+    }
+    assert!(readers() == 0);
+    {
+        let u = e.inner().read();
+        match u.downcast::<B>() { Ok(_) => assert!(false, "C13 a guard cannot be viewed as another type"), Err(back) => assert!(readers() == held, "C07 failed downcast hands the locked guard back") };
+    }
+    assert!(readers() == 0);
+    let c1 = h.copied_via_read();
+    std::mem::forget(e);
+}
+#[cfg(all(kani, feature = "hot-reloading"))]
+impl Handle<A> {
+    fn copied_via_read(&self) -> u8 {
+        let r = self.read().0;
+        assert!(readers() == 0, "C07 a temporary guard is released at the end of the statement");
+        r
+    }
+}
+#[cfg(all(kani, feature = "hot-reloading"))]
+instances! {
+    c07_k1_guard_dynamic => c07_guard(true);
+    c07_k1_guard_static => c07_guard(false);
+}
+
+// ---- C07.K2: swap, counter increment and flag store of write() happen inside the write-held section -----------------------------
+// callee contract stubs (the callees' own contracts are C06.K1/C13.K2, proved on the real functions): same effect + lock-state check
+#[cfg(all(kani, feature = "hot-reloading"))]
+pub(crate) static mut IN_WRITE_SECTION: [u8; 3] = [0; 3];
+#[cfg(all(kani, feature = "hot-reloading"))]
+unsafe fn swap_any_checked(a: &mut dyn Any, b: &mut dyn Any) {
+    assert!(crate::amv::vsync::G_WRITERS == 1, "C07 the value is swapped only while the entry's write lock is held");
+    IN_WRITE_SECTION[0] += 1;
+    let len = std::mem::size_of_val(a);
+    std::ptr::swap_nonoverlapping(a as *mut dyn Any as *mut u8, b as *mut dyn Any as *mut u8, len);
+}
+#[cfg(all(kani, feature = "hot-reloading"))]
+fn increment_checked(this: &AtomicReloadId) {
+    unsafe {
+        assert!(crate::amv::vsync::G_WRITERS == 1, "C07 the reload id changes only while the entry's write lock is held");
+        assert!(IN_WRITE_SECTION[0] == 1, "C06 the reload id is incremented after the swap");
+        IN_WRITE_SECTION[1] += 1;
+    }
+    this.0.fetch_add(1, Ordering::Release);
+}
+#[cfg(all(kani, feature = "hot-reloading"))]
+fn flag_store_checked(this: &AtomicBool, val: bool, _o: Ordering) {
+    unsafe {
+        assert!(crate::amv::vsync::G_WRITERS == 1, "C07 the reloaded flag is set only while the entry's write lock is held");
+        assert!(IN_WRITE_SECTION[0] == 1, "C06 the reloaded flag is set after the swap");
+        IN_WRITE_SECTION[2] += 1;
+    }
+    this.swap(val, Ordering::AcqRel);
+}
+#[cfg(all(kani, feature = "hot-reloading"))]
+#[kani::proof]
+#[kani::unwind(6)]
+#[kani::stub(swap_any, swap_any_checked)]
+#[kani::stub(AtomicReloadId::increment, increment_checked)]
+#[kani::stub(std::sync::atomic::Atomic::<bool>::store, flag_store_checked)]
+pub(crate) fn c07_k2_write_section() {
+    let (v0, v1): (u8, u8) = (nd(), nd());
+    let e = CacheEntry::new(A(v0), "a".into(), || true);
+    let new = CacheEntry::new(A(v1), "a".into(), || true);
+    e.inner().write(new);
+    unsafe {
+        assert!(IN_WRITE_SECTION[0] == 1 && IN_WRITE_SECTION[1] == 1 && IN_WRITE_SECTION[2] == 1, "C06/C07 write = one swap, one increment, one flag store");
+        assert!(crate::amv::vsync::G_WRITERS == 0, "C07 write releases the lock");
+    }
+    assert!(e.inner().downcast_ref_ok::<A>().read().0 == v1);
+    std::mem::forget(e);
+}
+// ---- C07.K3: write() while a read guard is alive would block (documents the hot_reload precondition) ---------------
+#[cfg(feature = "hot-reloading")]
+panicking_instances! {
+    c07_k3_write_blocks_under_guard => {
+        let e = CacheEntry::new(A(1), "a".into(), || true);
+        let g = e.inner().read();
+        e.inner().write(CacheEntry::new(A(2), "a".into(), || true));
+        drop(g);
+    };
+}
+
+// ---- C13.K1: CacheEntry::{new, into_inner, drop} for four layouts ----------------------------------------------------
+fn c13_entry<T: Tracked>(dynamic: bool) {
+    let v: u8 = nd();
+    let d0 = drops(T::IX);
+    let e = CacheEntry::new(T::mk(v), "a".into(), || dynamic);
+    assert!(e.inner().is::<T>() && !e.inner().is::<A>(), "C13 an entry is of its creation type only");
+    assert!(e.inner().downcast_ref::<A>().is_none() && e.inner().downcast_ref::<B>().is_none(), "C13 viewing an entry as another type yields None");
+    match e.inner().downcast_ref::<T>() {
+        Some(h) => assert!(h.read().val() == T::mk(v).val(), "C13 the creation type reads the stored value"),
+        None => assert!(false, "C13 the creation type must downcast"),
+    }
+    assert!(drops(T::IX) == d0 + 1, "only the probe temporary was dropped so far");
+    let take: bool = nd();
+    if take {
+        let (val, id) = e.into_inner::<T>();
+        assert!(drops(T::IX) == d0 + 1, "C13 into_inner/take hands the value to the caller without dropping it");
+        assert!(val.val() == T::mk(v).val() && &*id == "a", "C02 take hands back the stored value");
+        drop(val);
+        assert!(drops(T::IX) == d0 + 3, "C13 the caller's drop is the only drop");
+    } else {
+        drop(e);
+        assert!(drops(T::IX) == d0 + 2, "C13 dropping an entry drops its value exactly once");
+    }
+}
+instances! {
+    c13_k1_entry_d0 => c13_entry::<D0>(false);
+    c13_k1_entry_d1 => c13_entry::<D1>(false);
+    c13_k1_entry_dh => c13_entry::<DH>(false);
+    c13_k1_entry_da => c13_entry::<DA>(false);
+}
+#[cfg(feature = "hot-reloading")]
+instances! {
+    c13_k1_entry_dyn_dh => c13_entry::<DH>(true);
+    c13_k1_entry_dyn_da => c13_entry::<DA>(true);
+}
+panicking_instances! {
+    c13_k3_into_inner_wrong_type_panics => {
+        let e = CacheEntry::new(A(1), "a".into(), || false);
+        let _ = e.into_inner::<B>();
+    };
+    c13_k3_downcast_ref_ok_wrong_type_panics => {
+        let e = CacheEntry::new(A(1), "a".into(), || false);
+        let _ = e.inner().downcast_ref_ok::<B>();
+    };
+}
